@@ -73,6 +73,11 @@ def xid(nb, meta, tiers):
         reach=["written", "io_error"], functions=["write_id_table, alloc_location_table (lib/sqfs/src/xattr/xattr_writer_flush.c)"],
         bound="%d xattr sets, metadata block size scaled to %d bytes (%d id entries per block), symbolic block address steps, append may fail" % (nb, meta, meta // 16))
 OBLIGATIONS += [xid(1, 32, ["quick", "thorough"]), xid(2, 32, ["quick", "thorough"]), xid(3, 32, ["quick", "thorough"]), xid(4, 32, ["thorough"]), xid(3, 48, ["thorough"])]
+def namelen(n, tiers):
+    return dict(name="dir_entry_name_length_%d" % n, harness="harness/C03_namelen.c", sources=["lib/util/src/alloc.c", "lib/util/src/array.c"], included_sources=["lib/sqfs/src/dir_writer.c"],
+        defines=dict(NAMELEN=n), unwind=n + 3, tiers=tiers, timeout=300, reach=["accepted" if n <= 256 else "refused"],
+        functions=["sqfs_dir_writer_add_entry (lib/sqfs/src/dir_writer.c)"], bound="a name of exactly %d bytes" % n)
+OBLIGATIONS += [namelen(256, ["quick", "thorough"]), namelen(257, ["quick", "thorough"])]
 OBLIGATIONS.append(dict(name="packfile_keywords", harness="harness/C01_packfile.c",
     sources=["lib/util/src/parse_int.c", "lib/util/src/canonicalize_name.c", "lib/util/src/split_line.c", "lib/util/src/alloc.c"], stubs=["stubs/vp_ctype.c", "stubs/vp_sysmacros.c"],
     included_sources=["bin/gensquashfs/src/fstree_from_file.c"], incdirs=["bin/gensquashfs/src"], unwind=12, tiers=["quick", "thorough"], timeout=300, reach=["done"],
